@@ -20,8 +20,9 @@ RoundCheck(e) ==
       detOK == /\ Len(e.res) = e.rounds * e.njobs + e.k * e.nfirst      \* in the first round every goroutine also runs the `first` jobs
                /\ \A i \in 1..Len(e.res) : LET r == e.res[i] IN Len(r) = 10 /\ <<r[3], r[4], r[5], r[6]>> = <<r[7], r[8], r[9], r[10]>>
       \* the hooks must have seen the work: every concurrent goroutine that ran a QR / Data Matrix job used an encoder of its own
-      seenOK == Cardinality({o[3] : o \in {x \in inst : x[2] = "rsenc.cache"}}) >= 1
-  IN <<B(e.panic = 0), B(ownOK), B(pkgOK /\ knownOK), B(detOK), B(e.races = 0), B(seenOK)>>
+      \* (a run of a single round is unhooked - even rounds leave the race detector alone - and has nothing to show here)
+      seenOK == e.rounds < 2 \/ Cardinality({o[3] : o \in {x \in inst : x[2] = "rsenc.cache"}}) >= 1
+  IN <<B(e.panic = 0 /\ e.hang = 0), B(ownOK), B(pkgOK /\ knownOK), B(detOK), B(e.races = 0), B(seenOK)>>
 Init == l = 1 /\ bad = <<>>
 Next == /\ l <= NEv /\ l' = l + 1
         /\ LET e == Tr[l] r == RoundCheck(e) IN
